@@ -344,7 +344,74 @@ class Snap(object):
         return d
 
 
+def scribble(col):
+    """overwrite, in place, every array the loaded model exposes (nothing is saved): what a later load shows must
+    not depend on it"""
+    def ruin(a):
+        try:
+            if isinstance(a, numpy.ndarray) and a.size and a.flags.writeable:
+                if a.dtype.kind in 'fiu':
+                    a[...] = 77
+        except Exception:  # noqa
+            pass
+
+    def walk(n, depth=0):
+        if depth > 80:
+            return
+        for t in getattr(n, 'transforms', None) or []:
+            for k in ('matrix', 'eye', 'interest', 'upvector'):
+                ruin(getattr(t, k, None))
+        ruin(getattr(n, 'matrix', None)) if type(n).__name__ == 'Node' else None
+        if type(n).__name__ == 'Node':
+            for c in n.children:
+                walk(c, depth + 1)
+    try:
+        for g in col.geometries:
+            for s in g.sourceById.values():
+                ruin(getattr(s, 'data', None))
+            for p in g.primitives:
+                for k in ('index', 'vertex_index', 'normal_index'):
+                    ruin(getattr(p, k, None))
+                for a in list(getattr(p, 'texcoord_indexset', ()) or ()):
+                    ruin(a)
+        for c in col.controllers:
+            for k in ('bind_shape_matrix', 'vertex_weight_index', 'vcounts'):
+                ruin(getattr(c, k, None))
+            for s in getattr(c, 'sourcebyid', {}).values():
+                ruin(getattr(s, 'data', None))
+        for a in col.animations:
+            for s in a.sourceById.values():
+                ruin(getattr(s, 'data', None))
+        for e in col.effects:
+            for k in e.supported:
+                v = getattr(e, k, None)
+                if isinstance(v, list):
+                    for i in range(len(v)):
+                        v[i] = 77.0
+                ruin(v)
+        for n in col.nodes:
+            walk(n)
+        for sc in col.scenes:
+            for n in sc.nodes:
+                walk(n)
+    except Exception:  # noqa
+        pass
+
+
 def load_snapshot(data, ignore=False, path=None):
+    """load, take the snapshot, scribble over the loaded model in place, load the same bytes again: the snapshot
+    that is judged is the one of the SECOND load (the file must be read the same whatever happened to earlier
+    models in this process); 'reload_differs' tells whether the two snapshots differ"""
+    first = load_snapshot_once(data, ignore, path, ruin=True)
+    if 'snap' not in first or path:
+        return first
+    second = load_snapshot_once(data, ignore, path)
+    if 'snap' in second and second['snap'] != first['snap']:
+        second['reload_differs'] = True
+    return second
+
+
+def load_snapshot_once(data, ignore=False, path=None, ruin=False):
     import collada
     from collada.common import DaeError
     try:
@@ -353,7 +420,10 @@ def load_snapshot(data, ignore=False, path=None):
     except Exception as e:  # noqa
         return {'raised': type(e).__name__, 'msg': str(e)[:200]}
     try:
-        return {'snap': Snap(col).snapshot()}
+        r = {'snap': Snap(col).snapshot()}
+        if ruin:
+            scribble(col)
+        return r
     except Exception as e:  # noqa
         import traceback
         return {'snapshot_error': type(e).__name__, 'msg': traceback.format_exc()[-800:]}
